@@ -28,7 +28,7 @@ LEVEL_NOTE = ('Partial: trunc on floats enters as the class operation TruncLike.
               'hand model (differential only); oversample also scales the shift, which is C04\'s Field.shift. '
               'Trusted: Lean kernel, py2lean subset semantics, NumPy dot/exp/broadcast/fix as modelled, generator coverage.')
 TECHNIQUE = 'Lean 4 proof (omega + ring) over translator-regenerated window kernel + Float model with differential correspondence'
-GEN = ['Extent', 'FieldIdx', 'Window', 'PropagateMeta', 'PlaneType', 'Util', 'Helper', 'Helper20', 'Hex', 'Mesh']
+GEN = ['Extent', 'FieldIdx', 'Window', 'PropagateMeta', 'PlaneType', 'Util', 'Helper', 'Helper20', 'Hex', 'Mesh', 'FieldMerge', 'FieldDispatch', 'FieldAccum']
 OPS = ['C02']
 RULE = ('cases: pupils 1..6 x 1..6 (even/odd/non-square, off-centre support, 1..3 segments) with dyadic amplitude and OPD, '
         'alpha per axis in [0.02,0.35] (scalar or per-axis dx/du), oversample 1..3, output shape None/int/pair, prop_shape <= shape, '
